@@ -31,20 +31,30 @@ pub fn e2_search(prop: &str, kind: Kind, methods: &[Method], tier: &str, acc: &m
     let mut plan: Vec<(Scope, Vec<usize>, Vec<usize>)> = Vec::new();
     if !thorough {
         if leftmost {
-            plan.push((Scope::new(2, 4, 3, order, 6, 1), vec![0, 1], vec![0]));
+            plan.push((Scope::new(2, 4, 3, order, 7, 1), vec![0, 1], vec![0]));
+            // pattern length 5 and 6: deep leftmost fail chains need it
+            plan.push((Scope::new(2, 5, 3, Order::SetsBothWays, 7, 0), vec![0], vec![1]));
+            plan.push((Scope::new(2, 6, 2, Order::AllOrders, 8, 0), vec![1], vec![]));
+            plan.push((Scope::new(3, 3, 3, Order::Sets, 6, 0), vec![2], vec![3]));
             plan.push((Scope::new(3, 2, 3, order, 5, 1), vec![2], vec![3, 4]));
         } else {
-            plan.push((Scope::new(2, 4, 3, order, 6, 1), vec![0, 1, 2], vec![0]));
+            plan.push((Scope::new(2, 4, 3, order, 7, 1), vec![0, 1, 2], vec![0]));
+            plan.push((Scope::new(2, 5, 3, Order::Sets, 7, 0), vec![1], vec![1]));
+            plan.push((Scope::new(3, 3, 3, Order::Sets, 6, 0), vec![0], vec![3]));
             plan.push((Scope::new(3, 2, 3, order, 5, 1), vec![3], vec![1, 2, 3, 4]));
         }
     } else {
         let o2 = if leftmost { Order::AllOrders } else { order };
-        plan.push((Scope::new(2, 4, 3, o2, 7, 1), (0..bembs.len()).collect(), vec![0, 1, 2]));
-        plan.push((Scope::new(3, 3, 3, order, 6, 1), vec![0, 1, 2], vec![0, 3, 4]));
-        plan.push((Scope::new(2, 5, 3, order, 8, 0), vec![0, 1], vec![0, 5]));
+        plan.push((Scope::new(2, 4, 3, o2, 8, 1), (0..bembs.len()).collect(), vec![0, 1, 2]));
+        plan.push((Scope::new(3, 3, 3, order, 7, 1), vec![0, 1, 2], vec![0, 3, 4]));
+        plan.push((Scope::new(2, 5, 3, order, 9, 0), vec![0, 1], vec![0, 5]));
+        plan.push((Scope::new(2, 6, 3, Order::Sets, 8, 0), vec![1], vec![1]));
+        plan.push((Scope::new(2, 7, 2, Order::AllOrders, 9, 0), vec![0], vec![0]));
         plan.push((Scope::new(3, 2, 4, order, 6, 1), vec![1, 3], vec![1, 2, 4, 5]));
+        plan.push((Scope::new(4, 2, 3, Order::Sets, 5, 0), vec![1], vec![0, 3]));
         if leftmost {
             plan.push((Scope::new(3, 4, 2, Order::AllOrders, 7, 1), vec![0, 1], vec![0]));
+            plan.push((Scope::new(2, 4, 4, Order::Sets, 7, 0), vec![0], vec![]));
         }
     }
     for (scope, bi, ci) in plan {
@@ -343,7 +353,7 @@ pub fn run_types(which: &str, tier: &str, acc: &mut Acc, bounds: &mut Vec<String
                         if !v["sample"].is_null() {
                             acc.samples.insert(0, v["sample"].clone());
                         }
-                        bounds.push(format!("value-type matrix ({which}): 15 types (u8..u128, usize, i8..i128, isize, Empty, user3, user10) x 2 variants x 3 kinds x all methods x value assignments, before/after round trip: {}", v["notes"][0].as_str().unwrap_or("")));
+                        bounds.push(format!("value-type matrix ({which}): 16 types (u8..u128, usize, i8..i128, isize, Empty, user3, user10, user_tag) x 2 variants x 3 kinds x all methods x value assignments, before/after round trip: {}", v["notes"][0].as_str().unwrap_or("")));
                     }
                 } else if line.starts_with("VIOLATION") || line.starts_with("  what:") {
                     println!("{line}");
@@ -352,7 +362,7 @@ pub fn run_types(which: &str, tier: &str, acc: &mut Acc, bounds: &mut Vec<String
                     }
                 }
             }
-            if !seen || (!o.status.success() && !txt.contains("VIOLATION")) {
+            if (!seen || !o.status.success()) && !txt.contains("VIOLATION") {
                 eprintln!("MACHINERY: daacmc-types exited with {:?}", o.status);
                 std::process::exit(2);
             }
